@@ -367,6 +367,8 @@ def gen_c08_case(rng: random.Random) -> Dict[str, Any]:
         "shadow_shared": rng.random() < 0.15,
         # the task function is wrapped by a user decorator written with functools.wraps and (*args, **kwargs)
         "wrapped": rng.random() < 0.12,
+        # typed labels on the send (the message carries their text form plus a type table)
+        "labels": rng.choice([None, None, None, {"priority": 5}, {"ratio": 0.5, "urgent": True}, {"n": 0, "tag": "x", "flag": False}]),
     }
 
 
@@ -520,7 +522,10 @@ def _run_c08_inner(case: Dict[str, Any], fn: Any, src: str, broker: Any, early_r
     obs: Dict[str, Any] = {"src": src.splitlines()[0], "args": jsonable([prepared(a) for a in args]),
                            "kwargs": jsonable({k: prepared(x) for k, x in kwargs.items()})}
     try:
-        msg = task.kicker()._prepare_message(*args, **kwargs)
+        kicker = task.kicker()
+        if case.get("labels"):
+            kicker = kicker.with_labels(**case["labels"])
+        msg = kicker._prepare_message(*args, **kwargs)
         bm = broker.formatter.dumps(msg)
         back = broker.formatter.loads(bm.message)
     except Exception as exc:  # noqa: BLE001
